@@ -249,44 +249,138 @@ def utf8_rule(ctx, D, R=None):
 
 
 # ------------------------------------------------------------------------------------------------ buf
+def _buf_guard(b, site_bb):
+    """(ok, why): block `site_bb` is dominated by a remaining()/has_remaining() test with an error edge and no consuming read in between"""
+    why = "no dominating remaining()/has_remaining() check"
+    for g in b.calls:
+        if not BUF_CHECK.search(g.f) or not g.f.startswith("bytes::"):
+            continue
+        for sw, _ in _switches_from(b, g):
+            if not b.dominates(sw, site_bb):
+                continue
+            if not any(not b.can_reach(s, site_bb) for s in b.succ[sw]):
+                continue
+            if _consumes_between(b, sw, site_bb):
+                why = "another consuming read lies between the check and this read"
+                continue
+            return True, ""
+    return False, why
+
+
+def _buf_guard_via_callers(F, D, b, c):
+    """wrapper idiom: a private helper whose read is the first consuming read on every path from its entry is guarded when
+    every call site of the helper is guarded in its caller"""
+    if any(x is not c and BUF_CONSUME.search(x.f) and b.can_reach(x.bb, c.bb) and x.bb != c.bb for x in b.calls):
+        return False, "the helper consumes before this read"
+    sites = [x for x in F.callers_of(b.id)]
+    if not sites:
+        return False, "no dominating remaining() check and no caller found"
+    for x in sites:
+        if x.body not in D:
+            return False, "called from %s outside the decode closure" % x.body.id
+        ok, why = _buf_guard(x.body, x.bb)
+        if not ok:
+            return False, "call site %s: %s" % (x.where(), why)
+    return True, "guarded at its %d call site(s)" % len(sites)
+
+
+def _zero_excluded(b, c, place):
+    """a dominating test of the width against 0 (==, !=, <1, >=1, >0, <=0) whose zero edge avoids the read"""
+    al = _alias_locals(b, place[0])
+    for bb in b.live_blocks():
+        t = b.term(bb)
+        if t["t"] != "sw" or not b.dominates(bb, c.bb):
+            continue
+        d = op_local(t["d"])
+        # direct switch on the width: `match intlen { 0 => .., _ => read }`
+        if d in al and len(op_place(t["d"])) == 1:
+            m = {v: x for v, x in t["targets"]}
+            if 0 in m and not b.can_reach(m[0], c.bb, no_nodes=(bb,)):
+                return True
+        for dd in b.defs.get(d, []):
+            if dd[2] == "assign" and dd[3][1][0] == "bin" and dd[3][1][1] in ("Eq", "Ne", "Gt", "Ge", "Lt", "Le"):
+                op = dd[3][1][1]
+                ops = dd[3][1][2:4]
+                ls = [op_local(o) for o in ops]
+                ks = [op_const(o) for o in ops]
+                if ls[0] in al and ks[1] is not None and "v" in ks[1]:
+                    k, lhs = ks[1]["v"], True
+                elif ls[1] in al and ks[0] is not None and "v" in ks[0]:
+                    k, lhs = ks[0]["v"], False
+                else:
+                    continue
+                e = flow.bool_edges(b, bb)
+                if e is None:
+                    continue
+                holds0 = flow.int_relation_holds(op, k, lhs, 0)
+                zero_t = e[0] if holds0 else e[1]
+                pos_t = e[1] if holds0 else e[0]
+                if all(flow.int_relation_holds(op, k, lhs, v) != holds0 for v in range(1, 9)) and not b.can_reach(zero_t, c.bb, no_nodes=(bb,)) and b.can_reach(pos_t, c.bb, no_nodes=(bb,)) | (pos_t == c.bb):
+                    return True
+    return False
+
+
 def buf_rule(ctx, D, R=None):
-    R = R or ctx.rule("C09.buf", "K8+K2", "every bytes::Buf consuming read in the decode closure is dominated by a remaining()/len check with an error edge and no other consuming read in between; get_int/get_uint widths are <= 8")
+    R = R or ctx.rule("C09.buf", "K8+K2", "every bytes::Buf consuming read in the decode closure is dominated by a remaining()/len check with an error edge and no other consuming read in between (directly, or at every call site of a private read helper); get_int/get_uint widths are <= 8 and signed reads exclude width 0")
     n = 0
+    F = ctx.F
+    Dset = set(D)
     for b in D:
         cons = [c for c in b.calls if BUF_CONSUME.search(c.f)]
         for c in cons:
             n += 1
-            ok = False
-            why = "no dominating remaining()/has_remaining() check"
-            for g in b.calls:
-                if not BUF_CHECK.search(g.f) or not g.f.startswith("bytes::"):
-                    continue
-                for sw, _ in _switches_from(b, g):
-                    if not b.dominates(sw, c.bb):
-                        continue
-                    if not any(not b.can_reach(s, c.bb) for s in b.succ[sw]):
-                        continue
-                    if _consumes_between(b, sw, c.bb):
-                        why = "another consuming read lies between the check and this read"
-                        continue
-                    if b.in_loop_with(sw, c.bb) is False and False:
-                        pass
-                    ok = True
-                    break
-                if ok:
-                    break
+            ok, why = _buf_guard(b, c.bb)
+            how = "a remaining() check"
+            if not ok:
+                ok2, why2 = _buf_guard_via_callers(F, Dset, b, c)
+                if ok2:
+                    ok, how = True, "remaining() checks " + why2
+                else:
+                    why = why + "; " + why2
             inst = "%s:%s#%d" % (_fn(b), c.name(), _ordinal(cons, c))
-            R.require(ok, inst, c.where(), "%s guarded by a remaining() check" % c.name(),
+            R.require(ok, inst, c.where(), "%s guarded by %s" % (c.name(), how),
                       fail_msg="%s in %s is not guarded: %s (bytes::Buf panics on underflow)" % (c.fi, b.id, why))
             if c.name() in ("get_int", "get_uint", "get_int_le", "get_uint_le", "get_int_ne", "get_uint_ne"):
                 w = c.args[1]
                 k = op_const(w)
-                wok = k is not None and (ctx.F.const_value(k) or 99) <= 8
+                kv = ctx.F.const_value(k) if k is not None else None
+                wok = k is not None and (kv or 99) <= 8
                 if not wok and op_place(w) is not None:
-                    wok = _width_bounded(b, c, op_place(w))
+                    wok = _width_bounded(b, c, op_place(w)) or _width_bounded_at_callers(F, Dset, b, c, op_place(w))
                 R.require(wok, inst + ".width", c.where(), "width argument of %s is bounded by 8" % c.name(),
                           fail_msg="%s(width) in %s: width is peer-derived and never compared with 8 (bytes panics for width > 8)" % (c.name(), b.id))
+                if c.name().startswith("get_int"):
+                    zok = (kv is not None and kv >= 1) or (op_place(w) is not None and _zero_excluded(b, c, op_place(w)))
+                    R.require(zok, inst + ".width-nonzero", c.where(), "width 0 never reaches %s (a zero-length integer is decoded without the read)" % c.name(),
+                              fail_msg="%s(width) in %s can be called with width 0: bytes' sign extension shifts by 64 and panics in builds with overflow checks "
+                                       "(packed Integer(0), empty text and empty blob all encode width 0)" % (c.name(), b.id))
     R.ok("scan", "", "%d bytes::Buf consuming reads inspected" % n, nontrivial=n > 0)
+
+
+def _width_bounded_at_callers(F, D, b, c, place):
+    """the width is a parameter of a private helper: bounded at every call site"""
+    if len(place) != 1 or not (1 <= place[0] <= b.argc):
+        al = _alias_locals(b, place[0])
+        ps = [l for l in al if 1 <= l <= b.argc]
+        if not ps:
+            return False
+        pi = ps[0]
+    else:
+        pi = place[0]
+    sites = F.callers_of(b.id)
+    if not sites:
+        return False
+    for x in sites:
+        if x.body not in D:
+            return False
+        a = x.args[pi - 1]
+        if op_const(a) is not None:
+            if (F.const_value(op_const(a)) or 99) > 8:
+                return False
+            continue
+        if op_place(a) is None or not _width_bounded(x.body, x, op_place(a)):
+            return False
+    return True
 
 
 def _ordinal(lst, c):
